@@ -194,6 +194,6 @@ def agrees_term(case, obs):
     """bool term: the model run on the case yields exactly the observed per-op (documents, device calls, result)."""
     try:
         exp = cl(obs, cobs)
-    except (ValueError, KeyError) as e:      # an observation the model has no vocabulary for = disagreement
+    except (ValueError, KeyError, AssertionError) as e:      # an observation the model has no vocabulary for = disagreement
         return "false (* %s *)" % str(e).replace("*", "x")
     return "agrees %s %s" % (case_args(case), exp)
